@@ -32,21 +32,21 @@ Print Assumptions C08_scan_total.
 (* For every input byte string the fields of every record the reader delivers are those of
    the independent specification rfc_parse (lexer + six-state machine in Model/Csv.v: quoted
    fields may hold separators, doubled quotes and line breaks, lenient bare quotes, blank and
-   comment lines skipped, CR LF accepted and folded inside quotes).  Proved for single-byte
-   separators and comment characters, inputs not starting with a BOM and not ending in a lone
-   CR; header mode on or off (the header row is the first row of the specification). *)
+   comment lines skipped, CR LF accepted and folded inside quotes, a lone CR closing the input
+   ignored).  Proved for single-byte separators and comment characters and inputs not starting
+   with a BOM; header mode on or off (the header row is the first row of the specification). *)
 Theorem C08_reader_is_rfc : forall c data,
   valid_sep (c_sep c) -> c_sep c < 128 ->
   (c_comment c = 0 \/ (valid_sep (c_comment c) /\ c_comment c < 128)) -> c_sep c <> c_comment c ->
-  prefix_of bom data = false -> last_is 13 data = false ->
+  prefix_of bom data = false ->
   map ev_fields (read_file c data) = rfc_parse (c_sep c) (c_comment c) data.
 Proof. exact reader_is_rfc. Qed.
 Print Assumptions C08_reader_is_rfc.
 
 Example C08_ex_rfc :
   let data := [35; 120; 10; 10; 97; 44; 34; 98; 34; 34; 44; 13; 10; 99; 34; 44; 100; 34; 101; 13; 10;
-               34; 103; 34; 104; 34; 10; 13; 10; 105] in
-  prefix_of bom data = false /\ last_is 13 data = false /\
+               34; 103; 34; 104; 34; 10; 13; 10; 105; 13] in
+  prefix_of bom data = false /\
   rfc_parse 44 35 data = [[[97]; [98; 34; 44; 10; 99]; [100; 34; 101]]; [[103; 34; 104]]; [[105]]].
 Proof. vm_compute. repeat split; reflexivity. Qed.
 
